@@ -56,9 +56,9 @@ SigMatchRinex(cl, o) ==
 \* than N/A, the same wherever that signal occurs; a reserved one is N/A
 SigMatchBand(e, cl, o) ==
   /\ o.k = "s"
-  /\ CASE cl.c = "code"    -> o.t # NA /\ o.t # ""
+  /\ CASE cl.c = "code"    -> o.t # NA /\ o.t # "" /\ o.t # cl.v      \* a band label is not the RINEX code
        [] cl.c = "na"      -> o.t = NA
-       [] cl.c = "lenient" -> o.t # ""
+       [] cl.c = "lenient" -> o.t # "" /\ o.t # cl.v
   /\ (<<"band", e.g, e.id>> \in DOMAIN learnt => learnt[<<"band", e.g, e.id>>] = o.t)
 
 \* Rec.lbl = FALSE: the record's owner (e.g. C03) leaves label TEXT to C09/C16;
